@@ -1119,6 +1119,56 @@ def gen_restore():
 GENERATORS["RestoreGen.v"] = gen_restore
 
 
+def gen_filter():
+    """bfgsmats.make_X_and_G_respect_strong_wolfe: the backwards walk that keeps a stored point when the pair it forms with the
+    oldest point kept so far passes the curvature test (logging statements ignored: the model has no logger)."""
+    L = ["(* GENERATED from /repo/lbfgsb/bfgsmats.py by harness/translate.py - do not edit *)",
+         "From Coq Require Import List ZArith Bool Floats.PrimFloat.", "From LBFGSB Require Import Model.FloatVec.", "From LBFGSB Require Generated.BfgsMem.", "Import ListNotations.", ""]
+    bt = ast.parse(_src("bfgsmats.py"))
+    fn = _func(bt, "make_X_and_G_respect_strong_wolfe")
+    if [a.arg for a in fn.args.args] != ["X", "G", "eps", "logger"]:
+        raise TranslateError("make_X_and_G_respect_strong_wolfe: unexpected parameters")
+
+    def nolog(stmts):
+        out = []
+        for st in stmts:
+            if isinstance(st, ast.Expr) and isinstance(st.value, ast.Constant):
+                continue
+            if isinstance(st, ast.If) and "logger" in ast.unparse(st.test) and all(isinstance(b_, ast.Expr) and ast.unparse(b_).startswith("logger.") for b_ in st.body) and not st.orelse:
+                continue
+            out.append(st)
+        return out
+    body = nolog(fn.body)
+    src = [ast.unparse(b_) for b_ in body]
+    if len(body) != 4 or src[0] != "ncor: int = len(X) - 1" or src[1] != "_X, _G = (Deque([X[-1]]), Deque([G[-1]]))" or src[3] != "return (_X, _G)" or not isinstance(body[2], ast.For):
+        raise TranslateError("make_X_and_G_respect_strong_wolfe: unexpected statements " + " | ".join(src))
+    lp = body[2]
+    if not (ast.unparse(lp.target) == "i" and ast.unparse(lp.iter) == "range(ncor)" and not lp.orelse):
+        raise TranslateError("make_X_and_G_respect_strong_wolfe: unexpected loop header")
+    lb_ = nolog(lp.body)
+    if not (len(lb_) == 2 and ast.unparse(lb_[0]) == "k = ncor - i - 1" and isinstance(lb_[1], ast.If)):
+        raise TranslateError("make_X_and_G_respect_strong_wolfe: unexpected loop body " + " | ".join(ast.unparse(b_) for b_ in lb_))
+    iff = lb_[1]
+    test = ast.unparse(iff.test)
+    then_, else_ = nolog(iff.body), nolog(iff.orelse)
+    if test != "not is_update_X_and_G(X[k], G[k], _X[0], _G[0], eps)" or then_ or [ast.unparse(b_) for b_ in else_] != ["_X.appendleft(X[k])", "_G.appendleft(G[k])"]:
+        raise TranslateError("make_X_and_G_respect_strong_wolfe: unexpected test / branches: " + test + " | " + " ; ".join(ast.unparse(b_) for b_ in iff.body + iff.orelse))
+    L.append("Section Filter.\n  Variable vdot : vec -> vec -> float.\n  Variable eps : float.\n  Variables X G : list vec.\n"
+             "  Definition ncor : nat := List.length X - 1.\n"
+             "  (* for i in range(ncor): k = ncor - i - 1; if not is_update_X_and_G(X[k], G[k], _X[0], _G[0], eps): pass  else: appendleft *)\n"
+             "  Fixpoint walk (cnt i : nat) (aX aG : list vec) : list vec * list vec :=\n"
+             "    match cnt with\n    | O => (aX, aG)\n"
+             "    | S cnt' => let k := (ncor - i - 1)%nat in\n"
+             "        if negb (BfgsMem.is_update_X_and_G vdot (List.nth k X []) (List.nth k G []) (List.hd [] aX) (List.hd [] aG) eps)\n"
+             "        then walk cnt' (S i) aX aG\n"
+             "        else walk cnt' (S i) (List.nth k X [] :: aX) (List.nth k G [] :: aG)\n    end.\n"
+             "  Definition make_X_and_G_respect_strong_wolfe : list vec * list vec := walk ncor 0%nat [List.last X []] [List.last G []].\nEnd Filter.")
+    return "\n".join(L) + "\n"
+
+
+GENERATORS["FilterGen.v"] = gen_filter
+
+
 def generate():
     """Write the generated files. Returns a list of error strings (empty = ok)."""
     os.makedirs(OUT, exist_ok=True)
